@@ -1355,7 +1355,8 @@ class NewObjEx(Opcode):
     name = "NEWOBJ_EX"
 
     def run(self, interpreter: Interpreter):
-        kwargs = interpreter.stack.pop()
+        # the VM calls cls.__new__(cls, *args, **kwargs); ast.Call wants a list of ast.keyword
+        kwargs = [ast.keyword(arg=None, value=interpreter.stack.pop())]
         args = interpreter.stack.pop()
         class_type = interpreter.stack.pop()
         if isinstance(args, ast.Tuple):
